@@ -129,18 +129,19 @@ def check_metrics(prog, circ, klass, rng, ctx, case, stage, pool=None):
         if small:
             expected["CircuitMaxEmitEffDepth"] = costs.max_emitter_eff_depth(prog)
     pen = lambda x: 3 * x + 1
+    pen2 = lambda x: (7 * x + 3) % 11 - x      # neither monotone nor injective: the penalty must be applied to the quantity itself, once
     kw_name = {"CircuitDepth": "depth_penalty", "CircuitEmitterCount": "n_emitter_penalty", "CircuitCnotCount": "n_cnot_penalty",
                "CircuitUnitaryCount": "n_unitary_penalty", "CircuitMeasureCount": "m_penalty", "CircuitMaxEmitDepth": "depth_penalty",
                "CircuitMaxEmitResetDepth": "depth_penalty", "CircuitMaxEmitEffDepth": "depth_penalty"}
     for name, want in expected.items():
-        for mode in ("default", "explicit"):
+        for mode in ("default", "explicit", "explicit_nonmonotone"):
             ctx.count("metric:" + name)
             ctx.case((tuple(o.text() for o in prog.live_ops()), name, mode, stage), len(kinds) >= 3,
                      {"program": prog.text(), "metric": name, "expected": want} if ctx.evaluations % 1500 == 0 else None)
             try:
                 met = pool.get((name, mode))
                 if met is None:
-                    met = getattr(gm, name)() if mode == "default" else getattr(gm, name)(**{kw_name[name]: pen})
+                    met = getattr(gm, name)() if mode == "default" else getattr(gm, name)(**{kw_name[name]: pen if mode == "explicit" else pen2})
                     pool[(name, mode)] = met
                     if "decoy" in pool:
                         try:
@@ -152,7 +153,7 @@ def check_metrics(prog, circ, klass, rng, ctx, case, stage, pool=None):
                 ctx.violation("metric_raises", case, {"metric": name, "construction": mode, "exception": f"{type(e).__name__}: {e}"[:300]},
                               key=f"metric_exc:{name}:{mode}:{type(e).__name__}")
                 continue
-            exp = want if mode == "default" else pen(want)
+            exp = want if mode == "default" else (pen(want) if mode == "explicit" else pen2(want))
             if got != exp:
                 ctx.violation("metric_value_wrong", case, {"metric": name, "construction": mode, "got": got, "expected": exp,
                                                            "quantity": want}, key=f"metric_wrong:{name}")
